@@ -40,6 +40,8 @@ def _obligations(tier):
         ks = [K[x] for x in sh] + [0, 0, 0]
         ncl = sum(1 for x in sh if x in ("CL", "cl"))
         v = (8 if ncl < 2 else 5) if tier == "quick" else (10 if ncl < 2 else 6)
+        if ncl >= 2 and any(x in ("TE", "te") for x in sh):
+            v = 7  # "chunked" must be expressible
         obs.append(dict(name="framing_" + ("_".join(sh) or "none"), harness="C24_framing.c", entry="harness_framing",
                     defines=["VP_V=%d" % v, "VP_K0=%d" % ks[0], "VP_K1=%d" % ks[1], "VP_K2=%d" % ks[2], "KF_EXCLUDE_KEEPALIVE_NOLEN"],
                     unwind=max(v + 3, 20), instrument=CUT, timeout=600 if tier == "quick" else 2400, mem_gb=6, native=False,
